@@ -274,7 +274,7 @@ def run(tier, seed):
     res.traces_validated = len(hc) + len(vc) + len(kc) - len(failing) - len(f2) - len(f3)
     # ---- whole loop-body passes of real FSSH runs replayed through Model/Traj.step (wiring of the pieces)
     import ptraj
-    tc, tmeta = ptraj.collect(res, rng, 7 if tier == "quick" else 150, 40 if tier == "quick" else 1500)
+    tc, tmeta = ptraj.collect(res, rng, 8 if tier == "quick" else 150, 64 if tier == "quick" else 1500)
     f4, e4 = run_case_check("C01traj", ptraj.PRELUDE_T, "caseT", "chkT", tc, per_file=8, timeout=1500)
     for e in e4:
         res.violation("model evaluation failed (coqc)", dict(kind="coqc-error", log=e, no_failing_input_found=True))
